@@ -366,7 +366,7 @@ package decimal
 // once, eps > 0 iff gr != 0; [digits] says the zeros shifted in by the normalisation lie
 // strictly below the rounding digit, so eps*10^gs < 10^gs never reaches it (DESIGN.md C01).
 //@ func (z *Decimal) uquo(x, y *Decimal)
-//@   requires[wf]    z != nil && z.prec >= 1 && z.prec <= 1000000000 && z.mode <= 5 && finop(x) && finop(y) && sep(z, x) && sep(z, y) && len(x.mant) <= 10000000 && len(y.mant) <= 10000000
+//@   requires[wf]    z != nil && z.prec >= 1 && z.prec <= 1000000000 && z.mode <= 5 && finop_long(x) && finop_long(y) && sep(z, x) && sep(z, y) && len(x.mant) <= 10000000 && len(y.mant) <= 10000000
 //@   modifies z.acc, z.exp, z.form, z.mant, memcap(z.mant)
 //@   ghost gq, gr, gL, gs
 //@   ensures[form,C08] (z.form == finite || z.form == zero || z.form == inf) && 0 - 1 <= z.acc && z.acc <= 1
@@ -734,7 +734,7 @@ package decimal
 //@   onpanic[valid,C04,C08] valid(z)
 
 //@ func (z *Decimal) Quo(x, y *Decimal) *Decimal
-//@   requires[wf] binop_wf(z, x, y)
+//@   requires[wf] mulop_wf(z, x, y)
 //@   modifies z.prec, z.acc, z.form, z.neg, z.exp, z.mant, memcap(z.mant)
 //@   ensures[result] result == z
 //@   ensures[prec,C09] z.prec == newprec2(z, x, y)
